@@ -2,7 +2,7 @@ PROP = dict(
     unclaimed=True,
     module="M3d.Props.C12",
     gen=["McTable"],
-    corr=dict(quick=120, thorough=400),
+    corr=dict(quick=600, thorough=1500),
     corr_theorems=(
         "mc/ms kinds: M3d.C12.mesh_indep_of_workers_and_filter, ms_mesh_indep_of_workers_and_filter, "
         "mc_scan_mesh_indep_of_procs (the driver answers with the plain mcMesh/msMesh of the labelling, which these "
